@@ -94,6 +94,11 @@ func rqDomains(c *core.Ctx, bs, bd int) []rqDomain {
 		ds = append(ds, rqDomain{"all", genRange(minAmp(bs), maxAmp(bs)), true, true, 64})
 	default:
 		ds = append(ds, rqDomain{"boundary-alphabet", genList(boundaryAlphabet(bs)), true, false, 1})
+		nl := int64(1) << 18
+		if !c.Quick() {
+			nl = 1 << 24
+		}
+		ds = append(ds, rqDomain{"lattice (min + i*step, odd step)", genLattice(bs, nl), false, false, 16})
 		if bs > bd {
 			if bd <= 16 {
 				ds = append(ds, rqDomain{"cell-endpoints", genCells(bs, bd), false, false, 16})
@@ -244,7 +249,7 @@ func rqRun(which string) func(c *core.Ctx) {
 		if !c.Quick() {
 			tier32 = "every value (2^32)"
 		}
-		c.Set("rule", "all 121 signed/unsigned instantiations through the real conversion on real buffers with 1, 2 and 3 channels, in blocks whose destination is pre-filled with garbage; sources of 8 and 16 bits: every value; 32 bits: "+tier32+"; 64-bit sources: boundary alphabet plus cell end points (8/16-bit destinations; 32-bit in the thorough tier); every sequence ascending in amplitude, so order preservation is a streaming never-decreases check carried across blocks and shards; distinct_nontrivial counts (instantiation, source value) pairs of the primary sequence only (distinct by construction); every value is non-trivial (it is converted and judged)")
+		c.Set("rule", "all 121 signed/unsigned instantiations through the real conversion on real buffers with 1, 2 and 3 channels, in blocks whose destination is pre-filled with garbage; sources of 8 and 16 bits: every value; 32 bits: "+tier32+"; 64-bit sources: boundary alphabet, an arithmetic lattice of 2^18 (thorough 2^24) values with an odd step across the whole range, plus cell end points (8/16-bit destinations; 32-bit in the thorough tier); every sequence ascending in amplitude, so order preservation is a streaming never-decreases check carried across blocks and shards; distinct_nontrivial counts (instantiation, source value) pairs of the primary sequence only (distinct by construction); every value is non-trivial (it is converted and judged)")
 		c.Assume("64-bit sources (int64,int,uint64,uint,uintptr) are covered by a finite alphabet, not exhaustively", "exact integer oracle; no floating point in the oracle", "linux/amd64")
 	}
 }
